@@ -713,3 +713,60 @@ def crosscheck_orswot(ck, name="orswot", sample=150):
     ck.corr.setdefault("crosscheck", 0)
     ck.corr["crosscheck"] += len(picked)
     return len(picked)
+
+
+def crosscheck_tsdiff(ck, name="tsdiff", sample=120):
+    """Re-evaluates a sample of the `tsd` cases (the poller's sync plan) with vm_compute inside Coq and
+    demands what the extracted OCaml model printed.  Returns the number of cases checked."""
+    d = os.path.join(ck.work, name)
+    try:
+        cases = open(os.path.join(d, name + ".cases")).read().splitlines()
+        model = open(os.path.join(d, name + ".model")).read().splitlines()
+    except OSError:
+        return 0
+    n = min(len(cases), len(model))
+    if n == 0:
+        return 0
+
+    def side(s):
+        if s == "-":
+            return "[]"
+        items = []
+        for it in s.split(","):
+            nm, t = it.split("=")
+            items.append("(%d, %d)" % (ord(nm), int(t, 16)))
+        return "[" + "; ".join(items) + "]"
+
+    step = max(1, n // (sample * 3))
+    picked = []
+    for i in range(0, n, step):
+        t = cases[i].split()
+        if len(t) == 3 and t[0] == "tsd":
+            want = [] if model[i] == "-" else sorted(ord(x) for x in model[i].split(","))
+            picked.append((i, side(t[1]), side(t[2]), want))
+        if len(picked) >= sample:
+            break
+    if not picked:
+        return 0
+    lines = ["From stdpp Require Import gmap list sorting.", "From Coq Require Import NArith.",
+             "From DC Require Import TsDiff.", "Open Scope N_scope.", ""]
+    for i, a, b, want in picked:
+        lines.append("Example x%d : merge_sort N.le (ts_diff_lists %s %s) = [%s].\nProof. vm_compute. reflexivity. Qed." % (
+            i, a, b, "; ".join(str(x) for x in want)))
+    path = os.path.join(ck.work, "XCheck_%s.v" % name)
+    with open(path, "w") as f:
+        f.write("\n".join(lines) + "\n")
+    ok, out = coq_make(os.path.join(COQ, "core"), ["TsDiff.v"], 1200)
+    if not ok:
+        ck.proof["broken"].append({"file": "TsDiff.v", "log": out[-1500:]})
+        return 0
+    rc, out = sh(["coqc", "-Q", os.path.join(COQ, "core"), "DC", path], cwd=ck.work, timeout=1200)
+    ck.log("extraction cross-check (%s): %d sampled cases re-evaluated by vm_compute inside Coq: %s" % (
+        name, len(picked), "agree" if rc == 0 else "DISAGREE"))
+    if rc != 0:
+        ck.broken_correspondence(name + "-extraction",
+                                 "vm_compute inside Coq disagrees with the extracted model: " + out[-1200:], [])
+        return 0
+    ck.corr.setdefault("crosscheck", 0)
+    ck.corr["crosscheck"] += len(picked)
+    return len(picked)
